@@ -54,6 +54,7 @@ func (c18) Thresholds(tier string) map[string]int64 {
 		"G=64":                                     2,
 		"distinct-interleaving-prefixes":           12,
 		"race-detector-enabled-children":           16,
+		"race-canary-reported":                     1,
 	}
 }
 
